@@ -1,4 +1,5 @@
 mod geocorr;
+mod geosearch;
 mod golden;
 mod idcorr;
 mod search;
@@ -33,6 +34,7 @@ fn write_cases(prop: &str, cases: &[GenCase], outdir: &str, module: &str) {
         }
     }
     let budget = 250_000usize;
+    let max_cases = if module == "Corr.GeoCases" { 120usize } else { 1_000_000 };
     let mut shards: Vec<(String, usize, usize)> = Vec::new();
     let mut cur: Vec<String> = Vec::new();
     let mut cur_bytes = 0usize;
@@ -45,13 +47,17 @@ fn write_cases(prop: &str, cases: &[GenCase], outdir: &str, module: &str) {
         let mut f = fs::File::create(format!("{}/{}.v", outdir, name)).unwrap();
         writeln!(f, "From Coq Require Import ZArith List Uint63.\nImport ListNotations.\nOpen Scope Z_scope.\nFrom A5 Require Import {}.\nDefinition cases : list case := [", module).unwrap();
         writeln!(f, "{}", cur.join(";\n")).unwrap();
-        writeln!(f, "].\nEval vm_compute in (mismatches cases).").unwrap();
+        if module == "Corr.GeoCases" {
+            writeln!(f, "].\nEval vm_compute in (verdicts cases).").unwrap();
+        } else {
+            writeln!(f, "].\nEval vm_compute in (mismatches cases).").unwrap();
+        }
         shards.push((name, first, cur.len()));
         cur.clear();
     };
     for (k, c) in cases.iter().enumerate() {
         let t = c.coq.clone();
-        if cur_bytes + t.len() > budget && !cur.is_empty() {
+        if (cur_bytes + t.len() > budget || cur.len() >= max_cases) && !cur.is_empty() {
             flush(&mut cur, first, &mut shards);
             first = k;
             cur_bytes = 0;
@@ -133,7 +139,13 @@ fn main() {
             let thorough = args[3] == "thorough";
             let seed: u64 = args[4].parse().unwrap_or(0);
             let mut rng = util::Rng::new(seed ^ 0x5EA7C4);
-            match search::run(prop, &mut rng, thorough) {
+            let res = match prop.as_str() {
+                "C17" => Some(geosearch::search_c17(&mut rng, thorough)),
+                "C18" => Some(geosearch::search_c18(&mut rng, thorough)),
+                "C19" => Some(geosearch::search_c19(&mut rng, thorough)),
+                _ => search::run(prop, &mut rng, thorough),
+            };
+            match res {
                 Some(r) => println!("{}", r.to_json()),
                 None => {
                     eprintln!("no search for {}", prop);
